@@ -24,11 +24,14 @@ def abort_text(prog, k):
     return "\n".join(lines) + "\n"
 
 
-def dup_input_prog(prog):
-    """a program whose compilation raises: two different inputs under one name, both output"""
+def dup_input_prog(prog, first=False):
+    """a program whose compilation raises: two different inputs under one name, both output (first=True: the failing
+    outputs come first and carry the usual output names, so a later program has outputs of the same names)"""
     st = list(prog["stmts"])
     st.append(targeted.inp("dupa", "dup_name", targeted.SI))
     st.append(targeted.inp("dupb", "dup_name", targeted.SI))
+    if first:
+        return dict(prog, stmts=st, outs=[("out0", "P0", "dupa"), ("out1", "P0", "dupb"), ("o", "P0", "dupb"), ("o1", "P0", "dupb"), ("r", "P0", "dupb")])
     return dict(prog, stmts=st, outs=list(prog["outs"]) + [("d1", "P0", "dupa"), ("d2", "P0", "dupb")])
 
 
@@ -37,6 +40,7 @@ def tie_source_tables(ctx, rng, ncases):
     real functions, on random operation sequences run one after the other in one process"""
     bases, dirs = ["a.py", "b.py", "prog.py"], ["x", "y", "z"]
     cases = []
+    disk, vers = {}, []        # path -> (version, text); version of each touch in order
     for _ in range(ncases):
         ops = []
         if rng.random() < 0.8:
@@ -45,7 +49,14 @@ def tie_source_tables(ctx, rng, ncases):
             k = rng.random()
             if k < 0.45:
                 b = rng.choice(bases)
-                ops.append(["touch", f"{rng.choice(dirs)}/{b}", rng.choice(["one\ntwo\n", "ALPHA\n", "x = 1\ny = 2\nz = 3", "", "same"])])
+                path = f"{rng.choice(dirs)}/{b}"
+                text = rng.choice(["one\ntwo\n", "ALPHA\n", "x = 1\ny = 2\nz = 3", "", "same", "SAME"])
+                if path not in disk or rng.random() < 0.5:          # (re)write the file: new text (possibly of the same size), new stamp
+                    disk[path] = (disk.get(path, (0, ""))[0] + 1, text)
+                    ops.append(["touch", path, text, disk[path][0]])
+                else:                                              # the file is left as it is
+                    ops.append(["touch", path, disk[path][1], 0])
+                vers.append(disk[path][0])
             elif k < 0.9:
                 ops.append(["index", rng.choice(bases + ["ghost.py"]), rng.randrange(1, 4), rng.choice([0, 4, 10]), rng.choice([0, 3, 5])])
             else:
@@ -61,9 +72,11 @@ def tie_source_tables(ctx, rng, ncases):
         raise RuntimeError("impl_srctabs.py failed: " + vlib.clean_noise(err)[-800:])
     res = json.loads(out[out.index("["):])
 
+    vit = iter(vers)
+
     def g_op(op):
         if op[0] == "touch":
-            return f"(OTouch {vlib.gstr('/' + op[1])} {vlib.gstr(op[1].split('/')[-1])} {vlib.gstr(op[2])})"
+            return f"(OTouch {vlib.gstr('/' + op[1])} {vlib.gstr(op[1].split('/')[-1])} {vlib.gz(next(vit))} {vlib.gstr(op[2])})"
         if op[0] == "index":
             return f"(OIndex {{| s_file := {vlib.gstr(op[1])}; s_line := {vlib.gz(op[2])}; s_off := {vlib.gz(op[3])}; s_len := {vlib.gz(op[4])} |}})"
         return "OCompileStart"
@@ -248,6 +261,9 @@ def run(ctx):
     # the same probe twice, with and without timers
     hists.append(([("complete", good[0], None)], good[0], False))
     hists.append(([("complete", good[0], None)], good[0], True))
+    # timers on, an earlier compilation that raises while processing outputs of the usual names, then a probe
+    for j in range(4 if ctx.tier == "quick" else 30):
+        hists.append(([("dupfirst", rng.choice(good), None)], rng.choice(good), True))
     d = tempfile.mkdtemp(prefix="nadaverif_c08_")
     try:
         def one(hi):
@@ -261,6 +277,8 @@ def run(ctx):
                     txt = cands[i].get("text") or surface.to_python(cands[i])
                 elif kind == "abort":
                     txt = abort_text(cands[i], k)
+                elif kind == "dupfirst":
+                    txt = surface.to_python(dup_input_prog(cands[i], first=True))
                 else:
                     txt = surface.to_python(dup_input_prog(cands[i]))
                 open(path, "w").write(txt)
@@ -290,6 +308,8 @@ def run(ctx):
                 items.append(f"(HAbortTrace {vlib.glist([surface.g_stmt(s) for s in cands[i]['stmts'][:k]])})")
             elif kind == "dup":
                 items.append(f"(HComplete {surface.to_gallina(dup_input_prog(cands[i]))})")
+            elif kind == "dupfirst":
+                items.append(f"(HComplete {surface.to_gallina(dup_input_prog(cands[i], first=True))})")
             else:
                 items.append(f"(HComplete {surface.to_gallina(cands[i])})")
         return vlib.glist(items)
@@ -363,7 +383,7 @@ def run(ctx):
         vlib.report_failure(ctx, key, f"the probe compiled after this history differs from the probe compiled alone ({a.get('exc', 'different MIR')})",
                             dict(case=dict(kind="history", timers=(timers is True), probe_compiled_twice=(timers == "twice"),
                                            steps=[dict(kind=k, python_source=(abort_text(cands[i], kk) if k == "abort" else
-                                                       surface.to_python(dup_input_prog(cands[i]) if k == "dup" else cands[i])))
+                                                       surface.to_python(dup_input_prog(cands[i], first=(k == "dupfirst")) if k in ("dup", "dupfirst") else cands[i])))
                                                   for k, i, kk in steps],
                                            probe=surface.to_python(cands[probe])),
                                  observed=(a if "ok" not in a else {k: a["ok"][k] for k in ("functions", "inputs", "parties", "literals", "outputs")}),
@@ -383,7 +403,7 @@ def run(ctx):
                             + ("(the text embedded under the probe's file name is an earlier program's)" if key.endswith("same-file-name") else f"({what})"),
                             dict(case=dict(kind="history", layout=("every program saved as prog.py in its own directory" if same else "distinct file names"),
                                            steps=[dict(kind=k, python_source=(abort_text(cands[i], kk) if k == "abort" else
-                                                       surface.to_python(dup_input_prog(cands[i]) if k == "dup" else cands[i])))
+                                                       surface.to_python(dup_input_prog(cands[i], first=(k == "dupfirst")) if k in ("dup", "dupfirst") else cands[i])))
                                                   for k, i, kk in steps],
                                            probe=surface.to_python(cands[probe])),
                                  observed=dict(source_files={f: t[:120] for f, t in after[hi]["ok"]["source_files"].items()},
